@@ -12,7 +12,9 @@ its identifier (`no_own_schema`, `type_no_own_schema`), with a custom qualifier 
 starts with exactly that qualifier (`custom_used`, `type_custom_used`), a referenced table is
 qualified under the empty qualifier only when it lives in another named schema
 (`reftable_other_schema_only`), and the scope check rejects schema additions/drops, deferred schema
-modifications and change sets that span two schemas (`scope_rejects_*`).
+modifications and every change set whose TABLE changes span two schemas, in any position and order
+(`scope_rejects_*`). The schema of a stand-alone enum change is not looked at: `object_schema_not_counted`
+(known finding).
 
 PARTIAL: that every identifier-printing site of the planners goes through these functions is not
 proved (no extractor yet); it is what the marker-schema run observes.
@@ -62,34 +64,237 @@ theorem reftable_custom (q : Text) (hq : q ≠ []) (c p parent : Text) :
     | cons a b => simp
   simp [refTable, this, custom_used q hq]
 
-/-- **scope_rejects_schema_changes**: AddSchema / DropSchema anywhere in the change set is rejected. -/
-theorem scope_rejects_add_drop (q : Qualifier) (ip : Bool) (pre post : List ScopeCh) (c : ScopeCh)
-    (hc : c = .addSchema ∨ c = .dropSchema)
-    (hpre : ∀ x ∈ pre, (∃ s, x = .table s) ∨ x = .other) :
-    checkScope q ip (pre ++ c :: post) = false := by
-  unfold checkScope
-  suffices ∀ names, scopeGo (q.getD []) ip (pre ++ c :: post) names = none by rw [this]
-  induction pre with
-  | nil =>
-    intro names
-    rcases hc with rfl | rfl <;> simp [scopeGo]
+/-- AddSchema / DropSchema anywhere makes the loop stop with an error, whatever surrounds it. -/
+theorem scopeGo_none_of_add_drop (scope : Text) (ip : Bool) (c : ScopeCh)
+    (hc : c = .addSchema ∨ c = .dropSchema) :
+    ∀ (cs : List ScopeCh) (names : List Text), c ∈ cs → scopeGo scope ip cs names = none := by
+  intro cs
+  induction cs with
+  | nil => intro _ h; cases h
   | cons x xs ih =>
-    intro names
-    have hx := hpre x (List.mem_cons_self ..)
-    have ih' := ih (fun y hy => hpre y (List.mem_cons_of_mem _ hy))
-    rcases hx with ⟨s, rfl⟩ | rfl
-    · simp only [List.cons_append, scopeGo]; exact ih' _
-    · simp only [List.cons_append, scopeGo]; exact ih' _
+    intro names hmem
+    cases x with
+    | addSchema => simp [scopeGo]
+    | dropSchema => simp [scopeGo]
+    | modifySchema n =>
+      have hx : c ∈ xs := by
+        rcases List.mem_cons.mp hmem with h | h
+        · rcases hc with rfl | rfl <;> cases h
+        · exact h
+      simp only [scopeGo]
+      split
+      · rfl
+      · split
+        · rfl
+        · exact ih _ hx
+    | table s =>
+      have hx : c ∈ xs := by
+        rcases List.mem_cons.mp hmem with h | h
+        · rcases hc with rfl | rfl <;> cases h
+        · exact h
+      simp only [scopeGo]; exact ih _ hx
+    | object s =>
+      have hx : c ∈ xs := by
+        rcases List.mem_cons.mp hmem with h | h
+        · rcases hc with rfl | rfl <;> cases h
+        · exact h
+      simp only [scopeGo]; exact ih _ hx
+    | other =>
+      have hx : c ∈ xs := by
+        rcases List.mem_cons.mp hmem with h | h
+        · rcases hc with rfl | rfl <;> cases h
+        · exact h
+      simp only [scopeGo]; exact ih _ hx
 
-/-- **scope_rejects_two_schemas**: table changes in two different named schemas are rejected. -/
-theorem scope_rejects_two_schemas (q : Qualifier) (ip : Bool) (a b : Text) (ha : a ≠ []) (hb : b ≠ [])
-    (hab : a ≠ b) : checkScope q ip [.table a, .table b] = false := by
-  have h1 : a.isEmpty = false := by cases a <;> simp_all
-  have h2 : b.isEmpty = false := by cases b <;> simp_all
-  have hba : ¬ b = a := fun h => hab h.symm
-  simp [checkScope, scopeGo, h1, h2, dedup, hba]
+/-- **scope_rejects_schema_changes**: AddSchema / DropSchema anywhere in ANY change set is rejected,
+under every qualifier and plan mode. -/
+theorem scope_rejects_add_drop (q : Qualifier) (ip : Bool) (cs : List ScopeCh) (c : ScopeCh)
+    (hc : c = .addSchema ∨ c = .dropSchema) (hmem : c ∈ cs) : checkScope q ip cs = false := by
+  unfold checkScope
+  rw [scopeGo_none_of_add_drop _ ip c hc cs [] hmem]
+
+/-- a schema modification outside in-place mode is rejected wherever it stands. -/
+theorem scope_rejects_deferred_modify (q : Qualifier) (n : Text) :
+    ∀ (cs : List ScopeCh), ScopeCh.modifySchema n ∈ cs → checkScope q false cs = false := by
+  intro cs hmem
+  unfold checkScope
+  suffices ∀ (cs : List ScopeCh) (names : List Text), ScopeCh.modifySchema n ∈ cs →
+      scopeGo (q.getD []) false cs names = none by rw [this cs [] hmem]
+  intro cs
+  induction cs with
+  | nil => intro _ h; cases h
+  | cons x xs ih =>
+    intro names hm
+    cases x with
+    | addSchema => simp [scopeGo]
+    | dropSchema => simp [scopeGo]
+    | modifySchema m => simp [scopeGo]
+    | table s =>
+      have hx : ScopeCh.modifySchema n ∈ xs := by
+        rcases List.mem_cons.mp hm with h | h
+        · cases h
+        · exact h
+      simp only [scopeGo]; exact ih _ hx
+    | object s =>
+      have hx : ScopeCh.modifySchema n ∈ xs := by
+        rcases List.mem_cons.mp hm with h | h
+        · cases h
+        · exact h
+      simp only [scopeGo]; exact ih _ hx
+    | other =>
+      have hx : ScopeCh.modifySchema n ∈ xs := by
+        rcases List.mem_cons.mp hm with h | h
+        · cases h
+        · exact h
+      simp only [scopeGo]; exact ih _ hx
+
+/-! ### the name set -/
+
+def dstep (acc : List Text) (x : Text) : List Text := if acc.contains x then acc else acc ++ [x]
+
+theorem dedup_eq (l : List Text) : dedup l = l.foldl dstep [] := rfl
+
+theorem foldl_dstep : ∀ (l acc : List Text), acc.Nodup →
+    (l.foldl dstep acc).Nodup ∧ ∀ x, x ∈ l.foldl dstep acc ↔ (x ∈ acc ∨ x ∈ l) := by
+  intro l
+  induction l with
+  | nil => intro acc h; simp [h]
+  | cons y ys ih =>
+    intro acc h
+    simp only [List.foldl_cons]
+    by_cases hy : acc.contains y = true
+    · have hyin : y ∈ acc := List.contains_iff_mem.mp hy
+      have : dstep acc y = acc := by simp [dstep, hyin]
+      rw [this]
+      obtain ⟨h1, h2⟩ := ih acc h
+      refine ⟨h1, fun x => ?_⟩
+      rw [h2 x]
+      constructor
+      · rintro (h | h)
+        · exact Or.inl h
+        · exact Or.inr (List.mem_cons_of_mem _ h)
+      · rintro (h | h)
+        · exact Or.inl h
+        · rcases List.mem_cons.mp h with rfl | h
+          · exact Or.inl hyin
+          · exact Or.inr h
+    · have hyn : y ∉ acc := fun hin => hy (List.contains_iff_mem.mpr hin)
+      have hstep : dstep acc y = acc ++ [y] := by simp [dstep, hyn]
+      rw [hstep]
+      have hnd : (acc ++ [y]).Nodup := by
+        rw [List.nodup_append]
+        refine ⟨h, by simp, ?_⟩
+        intro a ha b hb
+        simp only [List.mem_singleton] at hb
+        subst hb
+        intro hab; subst hab; exact hyn ha
+      obtain ⟨h1, h2⟩ := ih (acc ++ [y]) hnd
+      refine ⟨h1, fun x => ?_⟩
+      rw [h2 x]
+      simp only [List.mem_append, List.mem_cons, List.not_mem_nil, or_false]
+      constructor
+      · rintro ((h | h) | h)
+        · exact Or.inl h
+        · exact Or.inr (Or.inl h)
+        · exact Or.inr (Or.inr h)
+      · rintro (h | h | h)
+        · exact Or.inl (Or.inl h)
+        · exact Or.inl (Or.inr h)
+        · exact Or.inr h
+
+theorem two_le_length_of_two_mem {l : List Text} (hnd : l.Nodup) {a b : Text} (ha : a ∈ l) (hb : b ∈ l)
+    (hab : a ≠ b) : 2 ≤ l.length := by
+  match l, hnd, ha, hb with
+  | [], _, ha, _ => cases ha
+  | [x], _, ha, hb =>
+    simp only [List.mem_singleton] at ha hb
+    exact absurd (ha.trans hb.symm) hab
+  | _ :: _ :: _, _, _, _ => simp
+
+/-- every named schema of a table change ends up in the collected names (when the loop completes). -/
+theorem scopeGo_collects (scope : Text) (ip : Bool) : ∀ (cs : List ScopeCh) (acc names : List Text),
+    scopeGo scope ip cs acc = some names →
+    (∀ x ∈ acc, x ∈ names) ∧ ∀ s, ScopeCh.table s ∈ cs → s ≠ [] → s ∈ names := by
+  intro cs
+  induction cs with
+  | nil =>
+    intro acc names h
+    simp only [scopeGo, Option.some.injEq] at h
+    subst h
+    exact ⟨fun _ hx => hx, fun _ hm => by cases hm⟩
+  | cons c rest ih =>
+    intro acc names h
+    cases c with
+    | addSchema => simp [scopeGo] at h
+    | dropSchema => simp [scopeGo] at h
+    | modifySchema n =>
+      simp only [scopeGo] at h
+      split at h
+      · cases h
+      · split at h
+        · cases h
+        · obtain ⟨h1, h2⟩ := ih _ _ h
+          refine ⟨fun x hx => h1 x (List.mem_append_left _ hx), fun s hm hs => ?_⟩
+          rcases List.mem_cons.mp hm with hm | hm
+          · cases hm
+          · exact h2 s hm hs
+    | table t =>
+      simp only [scopeGo] at h
+      obtain ⟨h1, h2⟩ := ih _ _ h
+      refine ⟨fun x hx => h1 x (by split <;> simp [hx]), fun s hm hs => ?_⟩
+      rcases List.mem_cons.mp hm with hm | hm
+      · cases hm
+        have ht : t.isEmpty = false := by cases t <;> simp_all
+        exact h1 t (by simp [ht])
+      · exact h2 s hm hs
+    | object o =>
+      simp only [scopeGo] at h
+      obtain ⟨h1, h2⟩ := ih _ _ h
+      refine ⟨h1, fun s hm hs => ?_⟩
+      rcases List.mem_cons.mp hm with hm | hm
+      · cases hm
+      · exact h2 s hm hs
+    | other =>
+      simp only [scopeGo] at h
+      obtain ⟨h1, h2⟩ := ih _ _ h
+      refine ⟨h1, fun s hm hs => ?_⟩
+      rcases List.mem_cons.mp hm with hm | hm
+      · cases hm
+      · exact h2 s hm hs
+
+/-- **scope_rejects_two_schemas**: ANY change set holding table changes in two different named
+schemas is rejected, whatever else it holds and in whatever order, under every qualifier and mode. -/
+theorem scope_rejects_two_schemas (q : Qualifier) (ip : Bool) (cs : List ScopeCh) (a b : Text)
+    (ha : a ≠ []) (hb : b ≠ []) (hab : a ≠ b) (hma : ScopeCh.table a ∈ cs) (hmb : ScopeCh.table b ∈ cs) :
+    checkScope q ip cs = false := by
+  unfold checkScope
+  cases h : scopeGo (q.getD []) ip cs [] with
+  | none => rfl
+  | some names =>
+    obtain ⟨_, h2⟩ := scopeGo_collects _ ip cs [] names h
+    have han := h2 a hma ha
+    have hbn := h2 b hmb hb
+    obtain ⟨hnd, hmem⟩ := foldl_dstep names [] List.nodup_nil
+    have hl := two_le_length_of_two_mem hnd ((hmem a).mpr (Or.inr han)) ((hmem b).mpr (Or.inr hbn)) hab
+    rw [← dedup_eq] at hl
+    simp only [decide_eq_false_iff_not]
+    omega
 
 /-- one schema is accepted. -/
 example : checkScope (some []) false [.table "s".toList, .table "s".toList, .other] = true := by decide
+
+/-- premises of `scope_rejects_two_schemas` are satisfiable and the conclusion is not trivial. -/
+example : checkScope (some []) false [.other, .table "a".toList, .object "a".toList, .table "b".toList] = false := by
+  decide
+
+/-- **object_schema_not_counted** (KNOWN FINDING `enum-schema-not-scoped`): the schema of an object
+change (AddObject / DropObject / ModifyObject of an enum type) is not collected, so a change set with an
+enum of schema `a` and a table of schema `b` passes the scope check: the property's "changes that span
+two schemas are rejected" does not hold for schema-level objects. Pinned by the upstream unit test
+TestPlanChanges/50 (enum of schema "ignored", table of schema "test1"), so it cannot be repaired without
+editing the test suite. -/
+theorem object_schema_not_counted (q : Qualifier) (ip : Bool) (a b : Text) :
+    checkScope q ip [.object a, .table b] = true := by
+  by_cases hb : b.isEmpty = true <;> simp [checkScope, scopeGo, hb, dedup]
 
 end Props.C16
